@@ -14,6 +14,7 @@ import (
 	_ "verif/harness/c06"
 	_ "verif/harness/c07"
 	_ "verif/harness/c08"
+	_ "verif/harness/c12"
 	_ "verif/harness/c13"
 	_ "verif/harness/c14"
 	_ "verif/harness/c15"
